@@ -297,7 +297,7 @@ func genAuth(r *hx.Rng) *authCase {
 	case 4: // username differing only in case
 		cu = flipCase(r, su)
 	case 5: // wrong password (often a near miss)
-		cp = hx.Pick(r, sp+"x", strings.ToUpper(sp), "", " "+sp, genPass(r))
+		cp = hx.Pick(r, sp+"x", flipCase(r, sp), flipCase(r, sp), "", " "+sp, genPass(r))
 	case 6: // other user
 		cu = genName(r)
 	case 7: // other user holding the right password
@@ -548,7 +548,11 @@ func runRetry(k *retryCase) {
 // prodBudgets reads the retry budgets /repo's own clients configure (a tiny fact extractor).
 func prodBudgets() map[string]int {
 	res := map[string]int{}
-	for name, file := range map[string]string{"client": "/repo/client/client.go", "servicediscovery": "/repo/client/servicediscovery/eru_service_discovery.go"} {
+	root := os.Getenv("VERIF_REPO")
+	if root == "" {
+		root = "/repo"
+	}
+	for name, file := range map[string]string{"client": root + "/client/client.go", "servicediscovery": root + "/client/servicediscovery/eru_service_discovery.go"} {
 		src, err := os.ReadFile(file)
 		if err != nil {
 			continue
